@@ -344,6 +344,9 @@ def run(cx):
     # the sender is bounded by the *peer's* limit and the receiver enforces its *own*
     from props.C07 import inst_config_mirror
     inst_config_mirror(cx, "C06.k")
+    # the window must not pass a packet whose data is still held: its allocation is released there and the bytes are not
+    from props.C03 import check_state_beliefs
+    check_state_beliefs(cx, "C06.l")
 
 
 SELFTEST = [
